@@ -7,6 +7,10 @@ props = [json.loads(l) for l in open(os.path.join(ROOT, "properties.jsonl"))]
 TECH = "explicit TLA+ specification checked with TLC; TLC-generated behaviours replayed into the real code; recorded traces validated by TLC against the same specification"
 
 CLAIMED = {
+ "C07": dict(
+   text="SentJournal.tla (a packet assembly is one critical section; complete, trivial and abandoned assemblies interleaved with ack processing) is model-checked for PnNeverReused and every call sequence to a fixed depth is executed on the real ArcSentJournal and validated by TLC; PnCodec.tla is checked exhaustively by TLC for scaled widths, and boundary/random triples through the real PacketNumber::encode/decode (via the wire format) are validated field by field by TLC at the real widths (values < 2^30) and by the round-trip identity up to 2^62.",
+   note="TLC integers are 32-bit: 32-bit-wide truncation and numbers >= 2^31 are judged by decoded = pn only; receiver's expected number in (largest_acked, pn].",
+   ref="DESIGN.md §4 C07"),
  "C08": dict(
    text="RecvBuf.tla (set of arrived positions, read cursor, largest offset) is model-checked (safety + 'all arrived data is eventually read'); every call sequence TLC enumerates to a fixed depth over all slices/reads/try_next plus seeded random long streams is executed on the real RecvBuf and each recorded step is validated by TLC against the specification.",
    note="TLC, JSON trace I/O; byte values compared by the harness against position-determined content.",
